@@ -11,7 +11,7 @@ def run(prop, tier, seed, replay):
     v = vlib.Verdict(prop, tier, seed)
     st = common.front(v, prop, need_cli=True)
     extra = ["--copia", vlib.COPIA] if st["cli_ok"] else []
-    res = common.correspondence(v, st, prop, "c01", "cdelta", tier, seed, replay, extra=extra,
+    res = common.correspondence(v, st, prop, "c01", "cdelta", tier, seed, replay, canary_kind="cdelta", extra=extra,
                                 model_desc="Model/Delta.v (signature, compute_delta_fast, patch)",
                                 impl_desc="Signature::generate / CopiaSync::delta / patch")
     common.verdict(v, st, prop, res)
@@ -19,6 +19,6 @@ def run(prop, tier, seed, replay):
     v.coverage.update(dict(
         evaluations=res["evals"], distinct_nontrivial=res["distinct"],
         rule="(basis, source, block size) triples from one SplitMix64 stream: block sizes {512..65536 powers of two} and library-level {1,2,3,7,100,1000,5000,70000}; bases random/0xFF/high-sum/periodic/ramp/binary, some > 64 KiB (parallel signature path); sources identical/insert/delete/replace k bytes at any offset/block permutation/weak-collision blocks/two or three weak-colliding blocks INSIDE the basis with the source using the later ones/unrelated/empty/multi-edit. Each triple: Sync trait + AsyncCopiaSync (randomly fragmented reads) in the shipped and checked profile, signatures+deltas compared op-for-op with the extracted model, patched output compared with the source; every 8th valid-block-size triple also through `copia signature|delta|patch` files and `copia sync`. distinct_nontrivial = distinct deltas containing both a copy and a literal.",
-        samples=res["samples"] or ["(none)"], distribution=res["stats"], disagreements=res["dis"]))
+        canary=res.get("canary", {}), samples=res["samples"] or ["(none)"], distribution=res["stats"], disagreements=res["dis"]))
     v.assumptions = TB
     return v.finish()
